@@ -38,7 +38,7 @@ Proof.
   exists ga, gb, gc. auto.
 Qed.
 Theorem sum_grad_shape : forall (g:tensor A) sa ax keep ks,
-  strict_axes (length sa) ax = Some ks -> tshape g = red_shape (mask_of (length sa) ks) sa keep ->
+  np_reduce_axes true (length sa) ax = Some ks -> tshape g = red_shape (mask_of (length sa) ks) sa keep ->
   exists r, sum_backward g sa ax keep = Some r /\ tshape r = sa.
 Proof. intros g sa ax keep ks E Hg. destruct (sum_backward_is_gather g sa ax keep ks E Hg) as (r & E1 & E2 & _). eauto. Qed.
 Theorem concat_grad_shapes : forall (xs:list (tensor A)) dim (o g:tensor A),
